@@ -7,7 +7,9 @@
                        x every spelling of A (+ trailers, repetition, foreign certificate, no name)
    VERIF_MODE = slice  the E whose index is = VERIF_SHARD mod VERIF_NSHARD x every A (all 864),
                        spelling / trailers / repetition chosen pseudo-randomly from VERIF_SALT;
-                       NSHARD shards together are the full 864 x 864 matrix *)
+                       NSHARD shards together are the full 864 x 864 matrix
+   VERIF_MODE = diag   every E met exactly (A = E, plain spelling): the silent diagonal; the
+                       printed ExpectHeaders(E) are also compared with what the real runner adds *)
 EXTENDS RefChecksSpace, Json, IOUtils
 
 Mode   == IOEnv.VERIF_MODE
@@ -42,7 +44,10 @@ SliceInit ==
             IF Mix(e, a, 4) % 13 = 0 THEN 1 ELSE 0,
             IF Mix(e, a, 5) % 97 = 0 THEN "" ELSE "t1")
 
-Init == (Mode = "near" /\ NearInit) \/ (Mode # "near" /\ SliceInit)
+\* every expected tuple once, met exactly (also feeds the runner-side harness: ExpectHeaders)
+DiagInit == \E e \in Tuples : s = Scn(e, e, Plain, 0, DefaultPeer(e), 0, "t1")
+
+Init == (Mode = "near" /\ NearInit) \/ (Mode = "slice" /\ SliceInit) \/ (Mode = "diag" /\ DiagInit)
 Next == UNCHANGED s
 
 WireOf(x) == [Render(x.a, x.v) EXCEPT !.trailers = x.tr, !.peer = x.peer]
